@@ -67,6 +67,13 @@ fn check(s: &str, l: &Lexer<'_>, r: ControlFlow<(Token<'_>, Range<usize>)>) {
                 },
             };
             assert!(ok, "OBL:C09.lexer.token_text_is_exactly_the_source_bytes");
+            // what Parser::simple_literal relies on when it strips the quotes with `&s[1..s.len() - 1]`
+            let quoted = |x: &str, q: u8| x.len() >= 2 && x.as_bytes()[0] == q && x.as_bytes()[x.len() - 1] == q;
+            match &tok {
+                Token::String(x) => assert!(quoted(x, b'"'), "OBL:C06.lexer.string_token_includes_both_quotes"),
+                Token::Char(x) => assert!(quoted(x, b'\''), "OBL:C06.lexer.char_token_includes_both_quotes"),
+                _ => {}
+            }
         }
     }
 }
